@@ -284,7 +284,8 @@ def cross3(cls, a, b, c, tag='x3'):
 
 FOUR = (('X', 'SIX', 'S', 'X'), ('X', 'S', 'SIX', 'X'), ('X', 'S', 'S', 'X'), ('S', 'X', 'S', 'X'), ('SIX', 'S', 'X', 'S'),
         ('X', 'X', 'S', 'S'), ('S', 'S', 'X', 'SIX'), ('X', 'SIX', 'S', 'SIX'), ('SIX', 'X', 'S', 'X'), ('S', 'SIX', 'X', 'S'),
-        ('X', 'S', 'X', 'S'), ('SIX', 'S', 'S', 'X'), ('X', 'SIX', 'SIX', 'S'), ('S', 'X', 'SIX', 'S'))
+        ('X', 'S', 'X', 'S'), ('SIX', 'S', 'S', 'X'), ('X', 'SIX', 'SIX', 'S'), ('S', 'X', 'SIX', 'S'), ('S', 'X', 'S', 'S'),
+        ('S', 'SIX', 'S', 'S'), ('X', 'X', 'S', 'S'))
 
 
 def four(cls, full=False):
@@ -294,4 +295,17 @@ def four(cls, full=False):
     for combo in combos:
         g = G()
         out.append('P %s_x4_%s %s | %s %s' % (cls, '-'.join(combo), cls, ' | '.join(script(m, g) for m in combo), fin(cls)))
+    return out
+
+
+FIVE = (('S', 'X', 'SIX', 'S', 'X'), ('X', 'SIX', 'S', 'X', 'S'), ('S', 'X', 'S', 'S', 'X'), ('X', 'S', 'SIX', 'S', 'SIX'),
+        ('SIX', 'S', 'X', 'S', 'S'))
+
+
+def five(cls):
+    """five requesters: a holder and a queue of four (groups of shared requests behind exclusive ones)"""
+    out = []
+    for combo in FIVE:
+        g = G()
+        out.append('P %s_x5_%s %s | %s %s' % (cls, '-'.join(combo), cls, ' | '.join(script(m, g) for m in combo), fin(cls)))
     return out
